@@ -54,7 +54,45 @@ def gen(rng, tier):
         f = "y ~ " + rng.choice(["0 + S(f)", "0 + C(f, Sum)", "x + S(f)", "0 + S(f):g", "x + (0 + S(f) | g)", "0 + f",
                                  "S(f, 'mean')", "0 + C(f, Sum('mean'))"])
         cases.append({"formula": f, "frame": fr, "na": "drop", "chain": [], "kind": "mean-level"})
+    # user-defined codings (subclasses of formulae.categorical.Encoding, the documented extension point) whose
+    # contrast matrices hold fractions: every view of a container shows the same numbers (decided by the oracle:
+    # the model knows the built-in codings only)
+    for _ in range(300 if tier == "thorough" else 30):
+        fr = gen_dm.make_frame(rng)
+        f = "y ~ " + rng.choice(["C(f, Helm)", "0 + C(g, Helm)", "x + C(h, helm)", "C(f, Helm):x", "0 + C(f, helm):g",
+                                 "C(f, Helm) + (1 | g)", "x + (0 + C(h, helm) | g)", "0 + C(o, Helm) + w"])
+        new, _ = _C10._new_frame(rng, fr)
+        cases.append({"formula": f, "frame": fr, "na": "drop", "chain": [new], "kind": "custom-encoding", "custom": True})
     return cases
+
+
+def _custom_ns():
+    import numpy as np
+    from formulae.categorical import ContrastMatrix, Encoding
+
+    class Helmert(Encoding):
+        @staticmethod
+        def _h(k):
+            m = np.zeros((k, max(k - 1, 0)))
+            for j in range(1, k):
+                m[:j, j - 1] = -1.0 / (j + 1)
+                m[j, j - 1] = j / (j + 1.0)
+            return m
+
+        def code_with_intercept(self, levels):
+            k = len(levels)
+            return ContrastMatrix(np.column_stack([np.full(k, 0.5), self._h(k)]), ["half"] + [f"H{j}" for j in range(1, k)])
+
+        def code_without_intercept(self, levels):
+            return ContrastMatrix(self._h(len(levels)), [f"H{j}" for j in range(1, len(levels))])
+
+    return {"Helm": Helmert, "helm": Helmert()}
+
+
+def _build(c):
+    if c.get("custom"):
+        return dm.build(dict(c, extra=_custom_ns()))
+    return dm.build(c)
 
 
 def key(c):
@@ -63,13 +101,15 @@ def key(c):
 
 def model_cmd(c):
     import core
+    if c.get("custom"):
+        c = dict(c, formula="y ~ x")   # placeholder: the comparison with the model is skipped for these cases
     return core.sshow(["newdata", c["formula"], dm.frame_sexp(c["frame"]), "drop", [], "silent",
                        [dm.frame_sexp(n) for n in c["chain"]]])
 
 
 def impl_obs(c):
     try:
-        d = dm.build(c)
+        d = _build(c)
     except Exception as e:  # noqa
         return ["err", type(e).__name__, str(e)[:120]]
     out = ["ok", dm.observe_design(d), []]
@@ -94,7 +134,7 @@ def impl_obs(c):
 
 
 def compare(c, mo, obs):
-    if unsupported(mo):
+    if unsupported(mo) or c.get("custom"):
         return None
     if mo[0] != obs[0]:
         return f"model {mo[:2]} / implementation {obs[:3]} on {c['formula']!r}"[:300]
@@ -169,8 +209,10 @@ def _check_container(obj, what, nrows, labels=None, mean_level=False):
 def oracle(c):
     import numpy as np
     try:
-        d = dm.build(c)
-    except Exception:
+        d = _build(c)
+    except Exception as e:
+        if c.get("custom"):
+            return f"{c['formula']!r} with a user-defined Encoding raises {type(e).__name__}: {str(e)[:80]}"
         return None
     df0 = dm.to_pandas(c["frame"])
     n = len(df0)
@@ -227,6 +269,13 @@ def oracle(c):
             err = _check_container(r, f"{f!r} {part} after evaluate_new_data #{k + 1}", len(df))
             if err:
                 return err
+            if part == "common":
+                try:
+                    rdf2 = r.as_dataframe()
+                except Exception as e:
+                    return f"{f!r}: as_dataframe() of the common matrix on new data raises {type(e).__name__}"
+                if not np.array_equal(np.asarray(rdf2), np.asarray(r.design_matrix), equal_nan=True):
+                    return f"{f!r}: as_dataframe() of the common matrix on new data differs from its design_matrix"
             # deriving again from the derived object gives the same thing
             r2, _ = _C10._eval(r, df, "silent")
             if not isinstance(r2, Exception):
